@@ -140,7 +140,14 @@ fn full_event(t: &Tables, sc: &Scenario, full: &RunOut, kmax: u64, d: i64, tag: 
     let sends: Vec<Value> = full.sends.iter().filter(|i| i["q"].as_u64().unwrap_or(0) <= kmax).cloned().collect();
     json!({"ev": "sfull", "tag": tag, "cmd": sc.cmd, "root": t.state(&sc.board), "rep0": table_json(&table_entries(&sc.table)),
            "K": kmax, "D": d, "infos": infos, "sends": sends, "panic": full.panic,
-           "root_rep": root_rep_counts(t, sc)})
+           "root_rep": root_rep_counts(t, sc), "root_order": root_order(t, sc)})
+}
+
+// the ordering value the generator gives every root move (captures by victim / attacker, promotions): the fallback of a
+// search that completed nothing is "the first move in its ordering", i.e. one with the maximal value
+fn root_order(t: &Tables, sc: &Scenario) -> Value {
+    let moves = generate_moves(&sc.board, MoveGenerationMode::AllMoves, &t.hasher);
+    Value::Array(moves.iter().map(|m| json!([printed_move(m), m.order_heuristic])).collect())
 }
 
 // for every root move: how often the position it leads to is already in the record (C10 precondition)
